@@ -212,7 +212,9 @@ def gen_case(r, pid=None):
     for k, s in enumerate(flat):
         if s[0] == "Feedback":
             case["fbval"][str(k)] = r.choice([0, 1, 2, 3, 10, 100, -5, k])
-    if pid == "C05" and r.random() < 0.5:
+    # callbacks that take time (and wake-ups that come late): half of the C05 robots, a quarter of the others -- what a pass
+    # calls, resets and publishes must not depend on how long anything took
+    if r.random() < (0.5 if pid == "C05" else 0.25):
         add_timing(case, r)
     return case
 
@@ -293,6 +295,12 @@ def add_timing(case, r):
                 if amt > 0:
                     kk = k + r.randrange(len(b))
                     spend[str(kk)] = spend.get(str(kk), 0) + amt
+        # a mode's entry code (teleopInit() ...) runs before the loop's NotifierDelay exists: it may take any time at all
+        # (longer than a period, too) without moving the grid -- and nothing of a pass may depend on how long it took
+        inits = [j for j, s_ in enumerate(b) if s_[0] == "Init"]
+        if inits and r.random() < 0.5:
+            kk = k + inits[0]
+            spend[str(kk)] = spend.get(str(kk), 0) + r.choice([P // 2, P, P + P // 3, 2 * P + 7])
         k += len(b)
     case["spend"] = spend
 
@@ -456,6 +464,9 @@ def oracle(case, out):
             pid = "C11"
         msg_ = "callback #%d is %s, expected %s (fault-free order cut at the first fault when the FMS is not attached)" % (i, got, want)
         v.append((pid, msg_))
+        if pid == "C11":
+            # where the feedback publishers run in a pass (after every execute(), before robotPeriodic) is C05's order too
+            v.append(("C05", msg_))
         if pid == "C07" and first_raise is None:
             # every fault of this run happened with the FMS attached: the robot keeps running and every pass must
             # still be the full, ordered pass (C05: execute() of every component exactly once ...; C11: every getter)
